@@ -46,7 +46,7 @@ func ExecEq(op M) (res any) {
 	}
 	need := map[string][]bool{"flatNode": {n != nil}, "flatEdge": {e != nil}, "equalNode": {n != nil, m != nil},
 		"equalEdge": {e != nil, f != nil}, "equalNL": {a != nil, b != nil}, "diff": {n != nil, m != nil}, "apply": {n != nil, m != nil},
-		"equalAfterEdit": {n != nil, m != nil}, "equalNLAfterEdit": {a != nil, b != nil}, "equalRaw": {n != nil, m != nil}}
+		"equalAfterEdit": {n != nil, m != nil}, "equalNLAfterEdit": {a != nil, b != nil}, "equalRaw": {n != nil, m != nil}, "diffAfterEdit": {n != nil, m != nil}}
 	if req, ok := need[name]; ok {
 		for _, r := range req {
 			if !r {
@@ -83,6 +83,14 @@ func ExecEq(op M) (res any) {
 			}
 		}
 	}
+	var m2, freshN, freshM2 *sbom.Node
+	if name == "diffAfterEdit" {
+		// operands are built before the call under test (the shrinker may hand in malformed ones)
+		if _, ok := op["m2"].(M); !ok {
+			return "unknown-op"
+		}
+		m2, freshN, freshM2 = NodeOf(op["m2"]), NodeOf(op["n"]), NodeOf(op["m2"])
+	}
 	var x, y *sbom.Node
 	if _, ok := op["x"]; ok && name == "equalRaw" {
 		x, y = NodeOf(op["x"]), NodeOf(op["y"])
@@ -111,6 +119,21 @@ func ExecEq(op M) (res any) {
 		return M{"added": NodeJ(d.Added), "removed": NodeJ(d.Removed), "count": float64(d.DiffCount)}
 	case "apply":
 		return NodeJ(ApplyDiff(n, n.Diff(m)))
+	case "diffAfterEdit":
+		// a difference is a function of the two nodes as they are at the time of the call: the caller
+		// edits elements of the second node's lists in place (the same person and reference objects,
+		// new content) between two calls
+		dj := func(d *sbom.NodeDiff) any {
+			if d == nil {
+				return "nil"
+			}
+			return M{"added": NodeJ(d.Added), "removed": NodeJ(d.Removed), "count": float64(d.DiffCount)}
+		}
+		first := dj(n.Diff(m))
+		editElementsInPlace(m, m2)
+		after := dj(n.Diff(m))
+		fresh := dj(freshN.Diff(freshM2))
+		return M{"first": first, "after": after, "fresh": fresh, "edited": Equal(NodeJ(m), NodeJ(m2))}
 	case "equalAfterEdit":
 		// equality and checksum are functions of the current value: a caller that holds the pointer
 		// and assigns fields between two comparisons gets the answer for the new value
@@ -173,6 +196,53 @@ func internPersons(n *sbom.Node) {
 }
 
 // overwriteNode assigns every exported attribute of src to dst, leaving dst the same object
+// editElementsInPlace gives dst the content of src while keeping dst's person and reference objects
+// wherever the two lists have the same length (a caller correcting an address or a URL in place)
+func editElementsInPlace(dst, src *sbom.Node) {
+	var person func(d, s *sbom.Person)
+	person = func(d, s *sbom.Person) {
+		d.Name, d.Email, d.Url, d.Phone, d.IsOrg = s.Name, s.Email, s.Url, s.Phone, s.IsOrg
+		if len(d.Contacts) == len(s.Contacts) {
+			for i := range d.Contacts {
+				if d.Contacts[i] != nil && s.Contacts[i] != nil {
+					person(d.Contacts[i], s.Contacts[i])
+				} else {
+					d.Contacts[i] = s.Contacts[i]
+				}
+			}
+		} else {
+			d.Contacts = s.Contacts
+		}
+	}
+	persons := func(d, s []*sbom.Person) []*sbom.Person {
+		if len(d) != len(s) {
+			return s
+		}
+		for i := range d {
+			if d[i] != nil && s[i] != nil {
+				person(d[i], s[i])
+			} else {
+				d[i] = s[i]
+			}
+		}
+		return d
+	}
+	sup, orig, refs := dst.Suppliers, dst.Originators, dst.ExternalReferences
+	overwriteNode(dst, src)
+	dst.Suppliers, dst.Originators = persons(sup, src.Suppliers), persons(orig, src.Originators)
+	if len(refs) == len(src.ExternalReferences) {
+		for i := range refs {
+			if refs[i] != nil && src.ExternalReferences[i] != nil {
+				r, q := refs[i], src.ExternalReferences[i]
+				r.Url, r.Type, r.Comment, r.Authority, r.Hashes = q.Url, q.Type, q.Comment, q.Authority, q.Hashes
+			} else {
+				refs[i] = src.ExternalReferences[i]
+			}
+		}
+		dst.ExternalReferences = refs
+	}
+}
+
 func overwriteNode(dst, src *sbom.Node) {
 	dst.Id, dst.Type = src.Id, src.Type
 	dv, sv := reflect.ValueOf(dst).Elem(), reflect.ValueOf(src).Elem()
@@ -316,7 +386,7 @@ func canonElem(f AttrField, x any) any {
 
 func eqProps(op M) []string {
 	switch asStr(op["op"]) {
-	case "diff", "apply":
+	case "diff", "apply", "diffAfterEdit":
 		return []string{"C14"}
 	}
 	return []string{"C13"}
@@ -510,6 +580,51 @@ func eqGen(g *G, tier string) []M {
 					cur["n"] = "leaf2"
 				}
 				ops = append(ops, M{"op": "equalNode", "n": base, "m": other, "kind": "perturbed"})
+				break
+			}
+			if g.Chance(0.08) {
+				// text of a reference that holds a per cent sign (percent-encoded locators): the characters
+				// after it are part of the value
+				at, _ := base["a"].(M)
+				if at == nil {
+					at = M{}
+					base["a"] = at
+				}
+				pair := [][3]string{{"u", "https://example.com/a%2Fb.tgz", "https://example.com/a%5Fb.tgz"}, {"u", "https://x/my%20file", "https://x/my%21file"},
+					{"c", "50% done", "50%  done"}, {"a", "reg%1x", "reg%2x"}, {"c", "100%d", "100%s"}, {"u", "%", "%%"}}[g.Int(6)]
+				ref := M{"u": "https://example.com/r", "t": 3.0}
+				ref[pair[0]] = pair[1]
+				at["ExternalReferences"] = []any{ref}
+				other := Normalize(base).(M)
+				asList(other["a"].(M)["ExternalReferences"])[0].(M)[pair[0]] = pair[2]
+				if g.Chance(0.5) {
+					base, other = other, base
+				}
+				ops = append(ops, M{"op": "equalNode", "n": base, "m": other, "kind": "perturbed"})
+				break
+			}
+			if g.Chance(0.08) {
+				// one person object reachable twice under a supplier (a help desk two contacts share, a
+				// contact listed twice): each occurrence is content
+				at, _ := base["a"].(M)
+				if at == nil {
+					at = M{}
+					base["a"] = at
+				}
+				desk := M{"n": "help desk", "o": true, "e": "desk@acme"}
+				fld := g.Pick([]string{"Suppliers", "Originators"})
+				other := Normalize(base).(M)
+				if g.Chance(0.5) {
+					at[fld] = []any{M{"n": "ACME", "o": true, "c": []any{M{"n": "Alice", "c": []any{desk}}, M{"n": "Bob", "c": []any{desk}}}}}
+					other["a"].(M)[fld] = []any{M{"n": "ACME", "o": true, "c": []any{M{"n": "Alice", "c": []any{desk}}, M{"n": "Bob"}}}}
+				} else {
+					at[fld] = []any{M{"n": "ACME", "o": true, "c": []any{desk, desk}}}
+					other["a"].(M)[fld] = []any{M{"n": "ACME", "o": true, "c": []any{desk}}}
+				}
+				if g.Chance(0.5) {
+					base, other = other, base
+				}
+				ops = append(ops, M{"op": "equalNode", "n": base, "m": other, "kind": "perturbed", "intern": true})
 				break
 			}
 			if g.Chance(0.1) {
@@ -1001,6 +1116,14 @@ func oracleEq(op M, res any, exec func(M) any) []Finding {
 		if (cn == cm) != eq {
 			add("C13", "node equality disagrees with checksum equality")
 		}
+	case "diffAfterEdit":
+		r, ok := res.(M)
+		if !ok || r["edited"] != true {
+			break
+		}
+		if !Equal(r["after"], r["fresh"]) {
+			add("C14", "after elements of the second node were edited in place diff reports %s; for fresh nodes with the same content it reports %s", js(r["after"]), js(r["fresh"]))
+		}
 	case "equalAfterEdit", "equalNLAfterEdit":
 		r, ok := res.(M)
 		if !ok {
@@ -1224,6 +1347,38 @@ func diffGen(g *G, tier string) []M {
 			ops = append(ops, M{"op": "diff", "n": base, "m": other})
 			continue
 		}
+		if g.Chance(0.05) {
+			// diff, an in-place edit of an element of a list of the second node, diff again
+			at, _ := base["a"].(M)
+			if at == nil {
+				at = M{}
+				base["a"] = at
+			}
+			at["Suppliers"] = []any{M{"n": "ACME", "o": true, "e": "info@acme", "c": []any{M{"n": "Jane Doe", "e": "jane@acme"}, M{"n": "desk"}}}}
+			at["Originators"] = []any{M{"n": "John Doe", "e": "john@x"}, M{"n": "Org", "o": true}}
+			at["ExternalReferences"] = []any{M{"u": "https://example.com/a", "t": 3.0, "h": []any{[]any{3.0, "aa"}}}, M{"u": "https://example.com/b", "t": 1.0}}
+			twin := Normalize(base).(M)
+			edited := Normalize(base).(M)
+			ea := edited["a"].(M)
+			switch g.Int(4) {
+			case 0:
+				asList(asList(ea["Suppliers"])[0].(M)["c"])[0].(M)["e"] = "j.doe@acme"
+			case 1:
+				asList(ea["Originators"])[0].(M)["n"] = "John Roe"
+			case 2:
+				asList(ea["ExternalReferences"])[0].(M)["u"] = "https://example.com/a2"
+			default:
+				asList(ea["ExternalReferences"])[0].(M)["h"] = []any{[]any{3.0, "bb"}}
+			}
+			if g.Chance(0.5) {
+				// equal first, different after the edit
+				ops = append(ops, M{"op": "diffAfterEdit", "n": base, "m": twin, "m2": edited})
+			} else {
+				// different first, equal after the edit
+				ops = append(ops, M{"op": "diffAfterEdit", "n": base, "m": edited, "m2": twin})
+			}
+			continue
+		}
 		if g.Chance(0.06) {
 			// collections that are there and empty against collections that are absent: no attribute
 			// differs; with one text attribute changed as well, exactly one does
@@ -1419,6 +1574,7 @@ var DiffStream = &Stream{
 	Exec:       ExecEq,
 	Oracle:     oracleEq,
 	OpProps:    eqProps,
+	NoModel:    func(op M) bool { return asStr(op["op"]) == "diffAfterEdit" },
 	Nontrivial: func(op M) bool { return !Equal(op["n"], op["m"]) },
 	Reps:       2,
 }
